@@ -231,7 +231,7 @@ theorem noFragmentCycles_neverPanics : noFragmentCycles.NeverPanics := by
     cases h
   | _ => rw [hp] at h; cases h
 
-/-- every modelled rule except ValuesOfCorrectType (+ twin) and KnownRootType -/
+/-- every modelled rule except KnownRootType (29 of the 30) -/
 def panicFreeRules' : List Rule := panicFreeRules ++ [maxIntrospectionDepth, singleFieldSubscriptions, noFragmentCycles]
 
 theorem panicFreeRules'_neverPanic : ∀ r ∈ panicFreeRules', r.NeverPanics := by
